@@ -328,7 +328,16 @@ func defaultsPolicy(d admissionapi.PodSecurityDefaults) api.Policy {
 	return p
 }
 
+// normalize: a request whose deadline has already passed (Remaining of a nanosecond) is, for the dry run, a request that is
+// cancelled during the first evaluation
+func (a *AdmitCase) normalize() {
+	if a.Remaining > 0 && a.Remaining < time.Millisecond {
+		a.ExpireAfter = 0
+	}
+}
+
 func (a *AdmitCase) opJSON() J {
+	a.normalize()
 	res := "other"
 	if a.Res == "pods" || a.Res == "namespaces" {
 		res = a.Res
@@ -430,6 +439,7 @@ func (a *AdmitCase) attributes() *attrs {
 
 // runGo runs the real admission.Validate on the case with fresh fakes.
 func (a *AdmitCase) runGo() (out AdmitOut) {
+	a.normalize()
 	ev := &evWrap{syn: a.Syn, salt: a.Salt, real: realEvaluator, cancelAt: a.ExpireAfter}
 	rec := &recorder{}
 	lister := &fakeLister{pods: a.Pods, err: a.ListErr}
@@ -662,6 +672,7 @@ func runHistory(group []*AdmitCase, order []int) []AdmitOut {
 	outs := make([]AdmitOut, len(group))
 	for _, i := range order {
 		a := group[i]
+		a.normalize()
 		func() {
 			ctx := context.Background()
 			var cancel context.CancelFunc
